@@ -753,6 +753,22 @@ def _inline_methods_in_class(c: Optional[ast.ClassDef], extra: Optional[Dict[str
                             count += 1
                             out.append(s)
                             continue
+            if h is None and isinstance(s, ast.Expr) and isinstance(s.value, ast.Call) and isinstance(s.value.func, ast.Attribute) \
+                    and call_of(s.value.func.value) is not None and call_of(s.value.func.value) is not host:
+                # `self._m(...).append(x)`: the helper's result is the receiver - evaluated first, so read it in place first
+                h3 = call_of(s.value.func.value)
+                if any(isinstance(x_, ast.Return) for x_ in ast.walk(h3)):
+                    r3 = expand(h3, s.value.func.value, s)
+                    if r3 is not None and r3[1] is not None:
+                        stmts3, rv3 = r3
+                        tmp3 = f'{h3.name}__result'
+                        if not (isinstance(rv3, ast.Name) and rv3.id == tmp3):
+                            stmts3 = stmts3 + [ast.fix_missing_locations(ast.copy_location(ast.Assign(targets=[ast.Name(id=tmp3, ctx=ast.Store())], value=rv3), s))]
+                        out += stmts3
+                        s.value.func.value = ast.copy_location(ast.Name(id=tmp3, ctx=ast.Load()), s)
+                        count += 1
+                        out.append(s)
+                        continue
             if h is not None and h is not host:
                 r = expand(h, s.value, s)
                 if r is not None and r[1] is None and not isinstance(s, ast.Expr):
